@@ -22,7 +22,7 @@ BUDGET_S = {'quick': 240, 'thorough': 1800}
 
 TYPES = ('response', 'stream', 'channel', 'fire_and_forget', 'metadata_push')
 SIGS = ('none', 'payload', 'cm', 'both', 'typed', 'cm-first', 'ann-cm-first', 'typed-then-raw', 'ann-payload', 'three')
-ROUTES = ('a', 'b', 'c', 'ab', 'A', 'noroute', 'emptytags')  # 'ab' and 'A' are never registered: route names match exactly
+ROUTES = ('a', 'b', 'c', 'ab', 'A', 'empty-then-a', 'emptystring', 'noroute', 'emptytags')  # 'ab' and 'A' are never registered: route names match exactly
 POSITIONS = ('first', 'after-generic', 'after-auth')
 AUTHS = ('no-verifier', 'missing', 'rejected', 'rejected-empty-bearer', 'rejected-empty-simple', 'simple-ok', 'bearer-ok')
 REJECTED = ('missing', 'rejected', 'rejected-empty-bearer', 'rejected-empty-simple')
@@ -137,6 +137,10 @@ def metadata_for(route, position, auth):
     r = None
     if route == 'emptytags':
         r = RoutingMetadata([])
+    elif route == 'empty-then-a':
+        r = mk_route('', 'a')  # the FIRST tag is the (unregistered) empty string; 'a' is only the second tag
+    elif route == 'emptystring':
+        r = mk_route('')
     elif route != 'noroute':
         r = mk_route(route, 'second-tag')
     if position == 'first':
@@ -162,7 +166,7 @@ def expected(table, rtype, route, auth):
         else:
             regs[t] = (set(), False)
     named, unk = regs[rtype]
-    if route in ('noroute', 'emptytags'):
+    if route in ('noroute', 'emptytags', 'empty-then-a', 'emptystring'):
         return [None, (rtype, 'unknown')] if unk else [None]
     if route in named:
         return [(rtype, route)]
@@ -232,7 +236,7 @@ def direct_case(table, sig, rtype, route, position, auth, part):
         elif got[0] != rtype:
             rule, sub = 'exact-dispatch', 'wrong-type | %s->%s' % (rtype, got[0])
         else:
-            rule, sub = 'exact-dispatch', 'wrong-route | %s | %s->%s' % (rtype, route if route in ('a', 'b', 'c', 'ab', 'A') else 'none', got[1])
+            rule, sub = 'exact-dispatch', 'wrong-route | %s | %s->%s' % (rtype, route if route in ('a', 'b', 'c', 'ab', 'A', 'empty-then-a', 'emptystring') else 'none', got[1])
         part.violate('C19.' + rule, 'C19.%s | %s' % (rule, sub), 'request %s: handlers run %s, reference allows %s' % (ctx, who, exp), wit)
         return
     # arguments as annotated
